@@ -424,7 +424,11 @@ def spaces(tier, variant, seed):
 
     # ---- mixed standard conversions, snprintf sizes, asprintf, sprintf ----
     MIX = [(b"%d|%Zd|%s", "izs"), (b"%s %Zx %c %5.2f %%", "szcd"), (b"<%ld %Qd %lu>", "lqu"), (b"%Zd%Zd%Zd", "zzz"), (b"%-6d|%+Zd|%#x|%#Zx", "izuz"),
-           (b"%c%c%Zo%c", "cczc"), (b"plain text only", ""), (b"%5.1f %Ff %e", "dfd"), (b"%hd %hhd %Zd %lld", "hHzL")]
+           (b"%c%c%Zo%c", "cczc"), (b"plain text only", ""), (b"%5.1f %Ff %e", "dfd"), (b"%hd %hhd %Zd %lld", "hHzL"),
+           # every length modifier of a standard conversion in front of / between / behind MPIR conversions: an argument of the wrong
+           # width skipped anywhere shifts every later argument
+           (b"%jd|%Zd|%zu|%Zx|%td", "JzSzT"), (b"%lld %Zd %llu %Qd %ld", "LzUql"), (b"%Zd %g %Zd %G %Zd", "zdzdz"), (b"%zd%Zd%jd%Zd%td%Zd", "SzJzTz"),
+           (b"%hhd %hd %d %ld %lld %Zd", "HhilLz"), (b"%Zd %x %lo %llX %Zd", "ziuUz"), (b"%5s|%-8.3s|%Zd|%c", "sszc"), (b"%e|%Fe|%a|%Zd", "dfdz")]
 
     def mx_cases(blk):
         i = blk
@@ -446,7 +450,7 @@ def spaces(tier, variant, seed):
         gargs, cparts = [], []
         # expected string assembled from libc pieces and our own rendering of the MPIR conversions
         import re
-        toks = re.findall(rb"%[-+ #0]*\d*(?:\.\d+)?(?:hh|h|ll|l|Z|Q|F)?[a-zA-Z%]|[^%]+", fmt)
+        toks = re.findall(rb"%[-+ #0]*\d*(?:\.\d+)?(?:hh|h|ll|l|j|z|t|Z|Q|F)?[a-zA-Z%]|[^%]+", fmt)
         exp = b""
         ki = 0
         cb = e["cbuf"]
@@ -469,11 +473,12 @@ def spaces(tier, variant, seed):
                 exp += (to_str(qv.numerator, 10) + ("" if qv.denominator == 1 else "/" + to_str(qv.denominator, 10))).encode()
             elif k == "f":
                 gargs.append(c_void_p(f.p))
-                c_snprintf(cb, c_size_t(4000), b"%f", c_double(float(Fraction(v % 1000) / 8)))
+                c_snprintf(cb, c_size_t(4000), b"%" + t[-1:], c_double(float(Fraction(v % 1000) / 8)))
                 exp += cb.value
             else:
                 a = {"i": c_int(v & 0x7FFFFFFF), "s": c_char_p(b"str\xc3\xa9"), "c": c_int(65 + (v % 26)), "d": c_double((v % 4096) / 16.0), "l": c_long(v),
-                     "u": c_ulong(v & M), "h": c_int((v & 0x7FFF)), "H": c_int(v & 0x7F), "L": ctypes.c_longlong(v)}[k]
+                     "u": c_ulong(v & M), "h": c_int((v & 0x7FFF)), "H": c_int(v & 0x7F), "L": ctypes.c_longlong(v),
+                     "J": ctypes.c_longlong(-v), "S": ctypes.c_size_t(v & M), "T": ctypes.c_ssize_t(v), "U": ctypes.c_ulonglong((v * 3) & M)}[k]
                 gargs.append(a)
                 c_snprintf(cb, c_size_t(4000), t, a)
                 exp += cb.value
@@ -646,6 +651,99 @@ def spaces(tier, variant, seed):
 
     sp.append(Space("entry_point_variants", list(range(len(VFMT))), vf_cases, vf_one,
                     "gmp_vsnprintf, vsprintf, vasprintf, vfprintf, fprintf, obstack_vprintf, vprintf (stdout captured) must produce exactly what gmp_snprintf produces for the same format and arguments; gmp_vsscanf, vfscanf, fscanf read it back"))
+
+    # ---- %n in every type variant: the count of characters produced so far goes to an int, short, char, long, long long, size_t, ptrdiff_t,
+    #      intmax_t, or to an mpz / mpq / mpf / limb vector ----
+    def nn_cases(blk):
+        vi = blk
+        yield (vi,)
+
+    def nn_one(case, R):
+        (vi,) = case
+        e = env()
+        v = (LV + BIG)[vi]
+        z = e["z"][0]
+        z.set(v)
+        pre = str(v).encode()
+        L1 = len(pre) + 1
+        i_, h_, H_, l_, L_, S_, T_, J_ = c_int(-1), ctypes.c_short(-1), ctypes.c_byte(-1), c_long(-1), ctypes.c_longlong(-1), ctypes.c_size_t(7), ctypes.c_ssize_t(-1), ctypes.c_longlong(-1)
+        zn, qn, fn_ = e["z"][1], e["q"][0], e["f"][0]
+        zn.set(-5)
+        qn.set(5, 3)
+        fn_.set_frac(Fraction(5, 4))
+        arr = (ctypes.c_uint64 * 3)(7, 7, 7)
+        buf = e["buf"]
+        fmt = b"%Zd|%n%hn%hhn%ln%lln%zn%tn%jn%Zn%Qn%Fn%Nn<%d>%n"
+        end = c_int(-1)
+        r = g_snprintf(c_void_p(addressof(buf)), c_size_t(4000), fmt, c_void_p(z.p), byref(i_), byref(h_), byref(H_), byref(l_), byref(L_), byref(S_), byref(T_), byref(J_),
+                       c_void_p(zn.p), c_void_p(qn.p), c_void_p(fn_.p), arr, c_long(3), c_int(42), byref(end))
+        exp = pre + b"|<42>"
+        got = buf.value
+        vals = {"%n": i_.value, "%hn": h_.value, "%hhn": H_.value & 0xFF, "%ln": l_.value, "%lln": L_.value, "%zn": S_.value, "%tn": T_.value, "%jn": J_.value,
+                "%Zn": zn.get(), "%Qn": qn.get() if hasattr(qn, "get") else None, "%Fn": fn_.get(), "%Nn": arr[0]}
+        if got != exp or r != len(exp):
+            R.fail("gmp_snprintf %n", "value %d: output %r (ret %d), expected %r" % (v, got[:60], r, exp[:60]))
+        for k_, val in vals.items():
+            want = L1 if k_ != "%hhn" else (L1 & 0xFF)
+            if val is not None and val != want:
+                R.fail("gmp_snprintf %n", "value %d: %s stored %s, %d characters had been produced" % (v, k_, val, L1))
+        if arr[1] != 0 or arr[2] != 0:
+            R.fail("gmp_snprintf %n", "%%Nn must zero the higher limbs: %s" % list(arr))
+        if end.value != len(exp):
+            R.fail("gmp_snprintf %n", "final %%n stored %d, length is %d" % (end.value, len(exp)))
+        if zn.wf() or fn_.wf():
+            R.fail("gmp_snprintf %n", "%%Zn/%%Fn left an ill-formed object")
+        return ("n", al.sgn(v), len(pre) > 100)
+
+    sp.append(Space("percent_n_family", list(range(len(LV) + len(BIG))), nn_cases, nn_one,
+                    "%n, %hn, %hhn, %ln, %lln, %zn, %tn, %jn, %Zn, %Qn, %Fn, %Nn after an MPIR conversion and a final %n: each receives the number of characters produced so far"))
+
+    # ---- hexadecimal floats: %Fa / %FA print the value exactly (the normalisation of the leading digit is MPIR's own, so the text is parsed
+    #      back and compared by value), with and without a precision that holds every digit; gmp_sscanf reads it back ----
+    FAV = [Fraction(1), Fraction(3, 2), Fraction(-5, 8), Fraction(255), Fraction(1, 1 << 20), Fraction((1 << 70) + 1), Fraction(-(1 << 64) - 3, 1 << 10), Fraction(0xABCDEF, 1 << 12), Fraction(0)]
+
+    def fa_cases(blk):
+        conv = blk
+        for vi in range(len(FAV)):
+            for fs in ("", "+", "-", "0", "#"):
+                for w in (None, 30):
+                    yield (conv, vi, fs, w)
+
+    def fa_one(case, R):
+        conv, vi, fs, w = case
+        e = env()
+        f, f2 = e["f"]
+        v = FAV[vi]
+        f.set_frac(v)
+        gf, gargs = spec(fs, w, None, "F", conv)
+        r, out = gfmt(R, gf.encode(), gargs + [c_void_p(f.p)], gf)
+        if out is None:
+            return None
+        txt = out.decode().strip().lstrip("0") if fs != "0" else out.decode().strip()
+        m = _re.match(r"^([-+ ]?)(0*)0[xX]([0-9a-fA-F]*)\.?([0-9a-fA-F]*)[pP]([-+]?\d+)$", out.decode().strip().replace(" ", "") if w else out.decode())
+        if not m:
+            m = _re.match(r"^([-+]?)(0*)0[xX](0*[0-9a-fA-F]*)\.?([0-9a-fA-F]*)[pP]([-+]?\d+)$", out.decode().strip())
+        if not m:
+            R.fail("gmp_printf %Fa", "format %r value %s: %r is not a hexadecimal float" % (gf, v, out))
+            return None
+        sign, _z, ip, fp_, ex = m.groups()
+        mant = Fraction(int((ip or "0") + fp_, 16), 16 ** len(fp_))
+        val = mant * Fraction(2) ** int(ex)
+        if sign == "-":
+            val = -val
+        if val != v:
+            R.fail("gmp_printf %Fa", "format %r value %s: %r denotes %s" % (gf, v, out, val))
+        if (conv == "a" and _re.search(r"[A-FXP]", out.decode())) or (conv == "A" and _re.search(r"[a-fxp]", out.decode())):
+            R.fail("gmp_printf %Fa", "format %r: wrong letter case in %r" % (gf, out))
+        if w and len(out) != max(w, len(out.strip())) and len(out) < w:
+            R.fail("gmp_printf %Fa", "format %r: field narrower than the width: %r" % (gf, out))
+        f2.set_frac(Fraction(99))
+        n = g_sscanf(out.strip(), b"%Ff", c_void_p(f2.p))
+        if n != 1 or f2.get() != v:
+            R.fail("gmp_sscanf", "hexadecimal float %r read back as %s (assigned %d)" % (out, f2.get(), n))
+        return ("Fa", conv, fs, w is None, vi)
+
+    sp.append(Space("F_hex_float", list("aA"), fa_cases, fa_one, "%Fa / %FA on exact values with flags and width: the text denotes exactly the value (parsed back), letter case, and gmp_sscanf %Ff reads it back"))
 
     # ---- runs of standard conversions / literal text of EVERY length through the allocating and the bounded back ends: the pieces MPIR
     #      hands to the C library are formatted into a buffer that is grown when the piece does not fit, so exact-fit lengths matter ----
